@@ -275,11 +275,10 @@ Section TcpProofs.
     assert (Hc : sh_closed_a (fst s) = false /\ sh_closed_b (fst s) = false /\ sh_ncl_a (fst s) = 0 /\ sh_ncl_b (fst s) = 0).
     { destruct pm; cbn [minv] in Hm; try tauto; try (destruct Hm as (? & ? & ? & ? & ? & ?); auto);
         destruct Hm as (Hz & _); congruence. }
-    destruct Hc as (Hca & Hcb & Hna & Hnb). repeat split; auto.
-    - intros ->. destruct H0 as (_ & _ & (? & _) & _). assumption.
-    - intros ->. destruct H0 as (_ & _ & (_ & ?) & _). assumption.
-    - intros ->. destruct H1 as (_ & _ & (? & _) & _). assumption.
-    - intros ->. destruct H1 as (_ & _ & (_ & ?) & _). assumption.
+    destruct Hc as (Hca & Hcb & Hna & Hnb).
+    split; [exact Hca|]. split; [exact Hcb|]. split; [exact Hna|]. split; [exact Hnb|]. split.
+    - intros ->. destruct H0 as (_ & _ & Hx & _). exact Hx.
+    - intros ->. destruct H1 as (_ & _ & Hx & _). exact Hx.
   Qed.
 End TcpProofs.
 Close Scope N_scope.
